@@ -1818,10 +1818,10 @@ def run(ctx):
     if not ctx.search_only:
         probe_f19(ctx)
         cases.extend(corpus(full=(ctx.tier != 'quick')))
-    cases.extend(gen_case(rng, force_corr=False) for _ in range(ctx.n(120, 2500)))
-    cases.extend(gen_case(rng, force_corr=True) for _ in range(ctx.n(30, 700)))
-    cases.extend(gen_sandwich(rng) for _ in range(ctx.n(6, 100)))
-    cases.extend(gen_private_plane(rng) for _ in range(ctx.n(8, 120)))
+    cases.extend(gen_case(rng, force_corr=False) for _ in range(ctx.n(120, 1400)))
+    cases.extend(gen_case(rng, force_corr=True) for _ in range(ctx.n(30, 400)))
+    cases.extend(gen_sandwich(rng) for _ in range(ctx.n(6, 60)))
+    cases.extend(gen_private_plane(rng) for _ in range(ctx.n(8, 80)))
     for case in cases:
         dispatch(ctx, case, lines, pending)
     outs = ctx.driver(lines)
